@@ -83,6 +83,23 @@ def corpus():
         texts[f"T{k + 1}"] = chart_text(res=192, song=[f'Name = "T"'], sync=["0 = TS 4", "0 = B 120000", f"{a} = B 90500", f"{b} = B 200000", f"{b} = TS 3"],
                                         events=['0 = E "section a"', '100 = E "lyric b"', '400 = E "c"', '900 = E "lyric d"'],
                                         tracks={"ExpertSingle": ["0 = N 0 0", "64 = N 1 500", "128 = S 2 600", "330 = N 3 0", "700 = N 4 10", "1000 = E solo"]})
+    # U1 / U2 (round 12, seeded/C17l: a rate cache whose later calls use another, one-ulp-apart formula): a tempo map whose
+    # every segment lasts EXACTLY a whole number of microseconds plus a half (at 192 ticks per beat a tick lasts
+    # 312500000 / n microseconds: ties where 625000000 * ticks / n is an odd integer) - the one place where a last-bit
+    # difference in a float decides a microsecond; U2 is an ordinary single-tempo chart that shares U1's first tempo
+    ties = [(153600, 2400), (76800, 1200), (384000, 1200), (307200, 4800), (200000, 25), (80000, 50), (160000, 100), (64000, 200),
+            (128000, 400), (256000, 800), (96000, 300)]
+    t_, usync, unotes = 0, ["0 = TS 4"], []
+    for k in range(44):
+        n_, base_ = ties[(k * 7 + k // 11) % len(ties)] if k else ties[0]
+        assert (625000000 * base_) % n_ == 0 and ((625000000 * base_) // n_) % 2 == 1
+        usync.append(f"{t_} = B {n_}")
+        unotes.append(f"{t_} = N {k % 5} {base_}")
+        t_ += base_ * [1, 3, 5, 7, 9, 11, 13][(k * 3) % 7]
+    usync.append(f"{t_} = B 120000")
+    unotes.append(f"{t_ + 5} = N 0 0")
+    texts["U1"] = chart_text(res=192, song=['Name = "U1"'], sync=usync, events=[f'{t_} = E "section end"'], tracks={"ExpertSingle": unotes})
+    texts["U2"] = chart_text(res=192, song=['Name = "U2"'], sync=["0 = TS 4", "0 = B 153600"], events=[], tracks={"ExpertSingle": ["0 = N 0 0", "2400 = N 1 0"]})
     wants = {"As": [["DRUMS", "HARD"], ["KEYS", "EASY"]],
              "Ms": [["KEYS", "EXPERT"], ["GUITAR", "EASY"], ["BASS", "HARD"], ["GUITAR", "EXPERT"], ["DRUMS", "EXPERT"], ["GUITAR", "MEDIUM"]]}
     return texts, wants
@@ -201,6 +218,7 @@ def run(ctx):
             seqs.append(seq)
     seqs += [["F1", "F1"], ["F1", "F2"], ["F2", "F1", "A"], ["F1", "A", "F1", "F1"], ["F3", "F3"], ["F3", "A", "F3"], ["F4", "F4"], ["F5", "F5"], ["F5", "A", "F5"],
              ["F6", "F6"], ["F6", "A"], ["F1", "F3", "F4", "F5", "F6", "A", "F1", "F3", "F4", "F5", "F6"]]
+    seqs += [["U1", "U1"], ["U2", "U1"], ["U1", "A", "U1", "U2", "U1"]]
     seqs += [["R2", "R1"], ["R3", "R1"], ["R1", "R2", "R1"], ["R2", "R3", "R2", "R1", "R1"], ["R1", "R3", "R2"], ["S1", "S2", "S1"], ["S2", "S1"], ["A", "S2", "R1", "S1"]]
     seqs += [["Ms"], ["M"], ["Ms", "M", "Ms"], ["Ms"], ["Ms"], ["Ms"], ["Ms"], ["Ms"], ["M", "Ms"], ["Z", "A"], ["Z", "B", "A"], ["A", "Z", "A"], ["Z", "X", "Z", "A"], ["Z", "C", "D"], ["As", "A", "As"], ["A", "As"], ["X", "As", "A"], ["Y", "X", "Y", "A", "B", "A"], ["B", "A", "B", "A", "C", "D", "C"]]
     for _ in range(ctx.pick(40, 600)):
